@@ -303,8 +303,86 @@ func (t *goTr) expr(e ast.Expr) string {
 	return ""
 }
 
+// a function that only reads registers (no bus access, no assignment to the cpu, no panic, only calls of such
+// functions): evaluating it early or not at all makes no difference, so `a && f()` may be written `a && (← f)`
+func (t *goTr) readOnly(name string, seen map[string]bool) bool {
+	fd, ok := t.funcs[name]
+	if !ok || seen[name] {
+		return false
+	}
+	seen[name] = true
+	ro := true
+	ast.Inspect(fd.Body, func(n ast.Node) bool {
+		switch v := n.(type) {
+		case *ast.AssignStmt:
+			for _, l := range v.Lhs {
+				if _, isSel := l.(*ast.SelectorExpr); isSel {
+					ro = false
+				}
+			}
+		case *ast.IncDecStmt:
+			if _, isSel := v.X.(*ast.SelectorExpr); isSel {
+				ro = false
+			}
+		case *ast.CallExpr:
+			if tv, ok := t.info.Types[v.Fun]; ok && tv.IsType() {
+				return true
+			}
+			switch f := v.Fun.(type) {
+			case *ast.SelectorExpr:
+				if _, isCallee := t.funcs[f.Sel.Name]; isCallee && !strings.Contains(exprString(f.X), ".") {
+					if !t.readOnly(f.Sel.Name, seen) {
+						ro = false
+					}
+				} else {
+					ro = false // c.Mem.Load / Store or something unknown
+				}
+			case *ast.Ident:
+				if _, isCallee := t.funcs[f.Name]; isCallee {
+					if !t.readOnly(f.Name, seen) {
+						ro = false
+					}
+				} else {
+					ro = false
+				}
+			default:
+				ro = false
+			}
+		}
+		return true
+	})
+	return ro
+}
+
+func (t *goTr) onlyReadOnlyCalls(e ast.Expr) bool {
+	ok := true
+	ast.Inspect(e, func(n ast.Node) bool {
+		c, isCall := n.(*ast.CallExpr)
+		if !isCall {
+			return true
+		}
+		if tv, has := t.info.Types[c.Fun]; has && tv.IsType() {
+			return true
+		}
+		name := ""
+		switch f := c.Fun.(type) {
+		case *ast.SelectorExpr:
+			if t.isCpu(f.X) {
+				name = f.Sel.Name
+			}
+		case *ast.Ident:
+			name = f.Name
+		}
+		if name == "" || !t.readOnly(name, map[string]bool{}) {
+			ok = false
+		}
+		return true
+	})
+	return ok
+}
+
 func (t *goTr) binary(v *ast.BinaryExpr) string {
-	if (v.Op == token.LAND || v.Op == token.LOR) && hasEffect(t, v.Y) {
+	if (v.Op == token.LAND || v.Op == token.LOR) && hasEffect(t, v.Y) && !t.onlyReadOnlyCalls(v.Y) {
 		bad("short-circuit operator with a call on the right")
 	}
 	x, y := t.expr(v.X), t.expr(v.Y)
@@ -801,7 +879,23 @@ func (t *goTr) ret(v *ast.ReturnStmt, em *emitter) {
 			}
 			cyc = "fun k => " + cyc
 		} else {
-			cyc = "fun _ => " + t.expr(v.Results[0])
+			// `<literal> + f(...)`: the literal stays symbolic where the model names it; whatever is added is computed
+			// first (a call cannot be evaluated below the binder of the cycle function)
+			ce := t.expr(v.Results[0])
+			if strings.Contains(ce, "←") {
+				if be, isAdd := v.Results[0].(*ast.BinaryExpr); isAdd && be.Op == token.ADD && t.known[field] {
+					if _, isLit := intLit(be.X); isLit {
+						em.line("let cyc_ : Nat := " + t.expr(be.Y))
+						cyc = "fun k => k." + field + " + cyc_"
+					}
+				}
+				if cyc == "" {
+					em.line("let cyc_ : Nat := " + ce)
+					cyc = "fun _ => cyc_"
+				}
+			} else {
+				cyc = "fun _ => " + ce
+			}
 		}
 		em.line("return ⟨" + cyc + ", " + t.expr(v.Results[1]) + "⟩")
 		return
@@ -1095,6 +1189,33 @@ func doCpuCode(repo, outDir string) {
 				fail("cpu.code."+n, "function no longer exists; baseline translation kept")
 			}
 			done[n] = leanFn{name: n, text: old, calls: callsInText(old, candidates)}
+		}
+	}
+	// a function whose callee has no translation falls back to its baseline text (or is dropped), until nothing changes
+	for changed := true; changed; {
+		changed = false
+		names := []string{}
+		for n := range done {
+			names = append(names, n)
+		}
+		sort.Strings(names)
+		for _, n := range names {
+			lf := done[n]
+			for _, c := range lf.calls {
+				if _, ok := done[c]; ok {
+					continue
+				}
+				old, have := baseline[n]
+				if have && old != lf.text {
+					fail("cpu.code."+n, "calls "+c+" which has no translation; baseline translation kept")
+					done[n] = leanFn{name: n, text: old, calls: callsInText(old, candidates)}
+				} else {
+					untranslated = append(untranslated, n+": calls "+c+" which has no translation")
+					delete(done, n)
+				}
+				changed = true
+				break
+			}
 		}
 	}
 	// topological order, callees first
